@@ -25,7 +25,15 @@ func readCmds(f *os.File) []*Cmd {
 		no++
 		line := sc.Text()
 		if strings.HasPrefix(line, "r ") || line == "r" {
-			continue // observation lines of an earlier transcript are ignored (replay)
+			// observation lines of an earlier transcript are ignored on replay; in frozen
+			// mode the recorded observation of a writer command is echoed
+			if len(cmds) > 0 && cmds[len(cmds)-1].Rec == "" {
+				cmds[len(cmds)-1].Rec = line
+			}
+			continue
+		}
+		if strings.HasPrefix(line, "env ") {
+			continue
 		}
 		if c := parseLine(no, line); c != nil {
 			cmds = append(cmds, c)
@@ -62,6 +70,8 @@ func main() {
 	case "run":
 		fs := flag.NewFlagSet("run", flag.ExitOnError)
 		dir := fs.String("dir", "", "scratch directory for segment files")
+		frozen := fs.String("frozen", "", "directory of frozen .zap files: writer commands are not executed, their recorded observations are echoed, files are opened from here")
+		keep := fs.Bool("keep", false, "keep the files written into -dir")
 		fs.Parse(os.Args[2:])
 		d := *dir
 		if d == "" {
@@ -82,12 +92,14 @@ func main() {
 		cmds := readCmds(os.Stdin)
 		w := bufio.NewWriterSize(os.Stdout, 1<<20)
 		e := newExec(d)
+		e.frozen = *frozen
+		_ = keep
 		fmt.Fprintf(w, "env vectors=%s\n", b01(vectorsCompiled))
 		e.run(cmds, w)
 		w.Flush()
 		st, _ := json.Marshal(e.stats)
 		fmt.Fprintln(os.Stderr, "RUNSTATS "+string(st))
-		if *dir == "" {
+		if *dir == "" && !*keep {
 			os.RemoveAll(d)
 		}
 	default:
